@@ -661,7 +661,19 @@ func c18Run(env *verifsim.Env, raw json.RawMessage) *verifsim.Violation {
 							which = "current revision"
 						}
 						vio = verifsim.Vf("C18", "leaf-channels", "%s: %s %s of %s (body %s) is assigned channels that differ from what the new function yields: %s", label, which, leaf, id, mustJSON(body), d)
+						// recorded finding: resync rewrites a document only when the assignment of its *current* revision changes
+						// (channels, access or roles); when the two functions agree on the current revision and differ only on a
+						// conflicting leaf, the document is not rewritten and the leaf keeps the channels of the old function
 						if leaf != doc.GetRevTreeID() {
+							if wbody, werr := acoll.Get1xRevBody(actx, id, doc.GetRevTreeID(), false, nil); werr == nil {
+								e1, e2 := p.F1.eval(wbody), p.F2.eval(wbody)
+								same := diffSets(e1.chans, e2.chans) == "" && fmt.Sprint(e1.access) == fmt.Sprint(e2.access) && fmt.Sprint(e1.roles) == fmt.Sprint(e2.roles) && e1.rejected == e2.rejected
+								if same && diffSets(p.F1.eval(body).chans, got) == "" {
+									vio.Key = "conflicting-leaf-not-re-evaluated-when-the-current-revision-is-unchanged"
+								}
+							}
+						}
+						if leaf != doc.GetRevTreeID() && vio.Key == "" {
 							vio.Key = "non-winning-leaf"
 						}
 						return
